@@ -536,6 +536,7 @@ func runLoop(c *runCtx) {
 	}
 	c.plan = plan
 	plan.Lines.N = clampInt(plan.Lines.N, 0, 20000)
+	corruptChunk = ""
 	P := clampInt(plan.Partitions, 1, 32)
 	L := clampInt(plan.Loaders, 1, 4)
 	tail := plan.Tail
@@ -549,6 +550,8 @@ func runLoop(c *runCtx) {
 	var idx int32
 	var pushLog []string
 	cl := NewChunkList(cache, func(item *Item, data []byte) bool {
+		// the item builder is arbitrary code (ANSI processing, --with-nth): a legal preemption point
+		zsim.Yield("item-builder")
 		item.text = util.ToChars(data)
 		item.text.Index = idx
 		idx++
@@ -724,6 +727,9 @@ func runLoop(c *runCtx) {
 
 	for _, cf := range sim.Conflicts {
 		c.violate("loop.slab_shared", "%s", cf)
+	}
+	if corruptChunk != "" {
+		c.violate("loop.chunk_corrupt", "%s (loaders %d tail %d)", corruptChunk, L, tail)
 	}
 	if snapshotBad != "" {
 		c.violate("loop.snapshot", "%s (tail=%d loaders=%d)", snapshotBad, tail, L)
